@@ -379,15 +379,25 @@ func c16Special() []refTree {
 		root = refRootSkeleton()
 		dig(root, "components", "schemas")["pet"] = gen.S{"type": "integer", "title": "MARKROOTPET"}
 		dig(root, "components", "schemas")["Site"] = gen.S{"$ref": "pet.json"}
-		dig(root, "components", "schemas", "Holder", "properties")["p"] = gen.S{"$ref": "#/components/schemas/pet"}
+		dig(root, "components", "schemas")["Other"] = gen.S{"type": "object", "properties": gen.S{"p": gen.S{"$ref": "#/components/schemas/pet"}, "q": gen.S{"$ref": "pet.json"}}}
 		mk(rootPath, root, map[string]gen.S{dir + "/pet.json": {"type": "string", "title": "MARKPETFILE"}}, []refPlan{
 			{Position: "components.schemas.Site", Kind: "schema", Shape: "default-name-equals-a-root-component", Ref: "pet.json", Marker: "MARKPETFILE"},
-			{Position: "schema.properties.p", Kind: "schema", Shape: "default-name-equals-a-root-component", Ref: "#/components/schemas/pet", Marker: "MARKROOTPET"}})
+			{Position: "nestedpath:Other/q", Kind: "schema", Shape: "default-name-equals-a-root-component", Ref: "pet.json", Marker: "MARKPETFILE"},
+			{Position: "nestedpath:Other/p", Kind: "schema", Shape: "default-name-equals-a-root-component", Ref: "#/components/schemas/pet", Marker: "MARKROOTPET"}})
+		// (h1b) two files whose default names coincide
+		root = refRootSkeleton()
+		dig(root, "components", "schemas")["Other"] = gen.S{"type": "object", "properties": gen.S{"p": gen.S{"$ref": "a/b.json"}, "q": gen.S{"$ref": "a_b.json"}, "r": gen.S{"$ref": "a/b.yaml"}}}
+		mk(rootPath, root, map[string]gen.S{dir + "/a/b.json": {"type": "string", "title": "MARKSLASH"}, dir + "/a_b.json": {"type": "integer", "title": "MARKUNDER"}, dir + "/a/b.yaml": {"type": "boolean", "title": "MARKYAML"}}, []refPlan{
+			{Position: "nestedpath:Other/p", Kind: "schema", Shape: "default-names-of-two-files-coincide", Ref: "a/b.json", Marker: "MARKSLASH"},
+			{Position: "nestedpath:Other/q", Kind: "schema", Shape: "default-names-of-two-files-coincide", Ref: "a_b.json", Marker: "MARKUNDER"},
+			{Position: "nestedpath:Other/r", Kind: "schema", Shape: "default-names-of-two-files-coincide", Ref: "a/b.yaml", Marker: "MARKYAML"}})
 		// (h2) a file whose name starts with a dot
 		root = refRootSkeleton()
 		dig(root, "components", "schemas")["Site"] = gen.S{"$ref": ".pet.json"}
+		dig(root, "components", "schemas")["Other"] = gen.S{"type": "object", "properties": gen.S{"q": gen.S{"$ref": ".pet.json"}}}
 		mk(rootPath, root, map[string]gen.S{dir + "/.pet.json": {"type": "string", "title": "MARKDOTFILE"}}, []refPlan{
-			{Position: "components.schemas.Site", Kind: "schema", Shape: "file-name-starting-with-a-dot", Ref: ".pet.json", Marker: "MARKDOTFILE"}})
+			{Position: "components.schemas.Site", Kind: "schema", Shape: "file-name-starting-with-a-dot", Ref: ".pet.json", Marker: "MARKDOTFILE"},
+			{Position: "nestedpath:Other/q", Kind: "schema", Shape: "file-name-starting-with-a-dot", Ref: ".pet.json", Marker: "MARKDOTFILE"}})
 		// (h3) a chain of aliases that ends in the root under another name than the one the library uses
 		root = refRootSkeleton()
 		dig(root, "components", "schemas")["A"] = gen.S{"type": "integer", "title": "MARKROOTA"}
